@@ -845,6 +845,49 @@ func (e *Engine) continuation(wl *Workload, s *session, l *model.Log, pt *Point,
 			return f
 		}
 	}
+	// the FIRST write after a recovery need not be an append: raft removes a conflicting suffix
+	// before it appends, a snapshot compacts the head, a vote is persisted. In a third of the
+	// continuations one of those comes first (a recovered tail that is sealed but not yet rotated,
+	// or re-created, meets a truncation or a stable write before any append could tidy it up).
+	switch k := rng.Intn(12); {
+	case k == 0 && !l.Empty() && l.Last > l.First:
+		if f := step(gen.Op{Kind: "delete", Min: l.Last, Max: l.Last}); f != nil {
+			return f
+		}
+		e.C.Count("first_write_after_recovery:tail-truncation", 1)
+	case k == 1 && !l.Empty() && l.Last-l.First >= 2:
+		if f := step(gen.Op{Kind: "delete", Min: l.Last - 1, Max: l.Last + 3}); f != nil {
+			return f
+		}
+		e.C.Count("first_write_after_recovery:tail-truncation", 1)
+	case k == 2 && !l.Empty() && l.Last > l.First:
+		if f := step(gen.Op{Kind: "delete", Min: l.First, Max: l.First}); f != nil {
+			return f
+		}
+		e.C.Count("first_write_after_recovery:head-truncation", 1)
+	case k == 3 && pt.InFlight != nil && pt.InFlight.Kind == "delete":
+		// the interrupted truncation itself, retried
+		if kind := l.ClassifyDelete(pt.InFlight.Min, pt.InFlight.Max); kind == model.DelHead || kind == model.DelTail {
+			if f := step(gen.Op{Kind: "delete", Min: pt.InFlight.Min, Max: pt.InFlight.Max}); f != nil {
+				return f
+			}
+			e.C.Count("first_write_after_recovery:retried-truncation", 1)
+		}
+	case k == 4:
+		if f := step(gen.Op{Kind: "set", Key: []byte("first" + tag), Val: []byte("v")}); f != nil {
+			return f
+		}
+		e.C.Count("first_write_after_recovery:stable-set", 1)
+	}
+	if !l.Empty() {
+		next = l.Last + 1
+		if f := compare("after the first write following recovery"); f != nil {
+			if rs.hadTrunc.Load() {
+				f.props = append(f.props, "C04")
+			}
+			return f
+		}
+	}
 	// enough appended bytes to fill the segment at least once for small geometries
 	nb := 2 + rng.Intn(2)
 	for b := 0; b < nb; b++ {
